@@ -411,24 +411,3 @@ theorem getMergeFn_name (c : Crit) (tol : Rat) :
 
 end BB
 
-#print axioms BB.isimFromSum_isSome
-#print axioms BB.radiusCompl_isSome
-#print axioms BB.accept_mono_thr
-#print axioms BB.accept_sound
-#print axioms BB.accept_singleton
-#print axioms BB.accept_tol_iff
-#print axioms BB.slack_nonneg
-#print axioms BB.slack_mono_tol
-#print axioms BB.slack_zero
-#print axioms BB.accept_mono_tol
-#print axioms BB.accept_mono_tol_legacy
-#print axioms BB.accept_legacy_sound
-#print axioms BB.accept_legacy_easy
-#print axioms BB.accept_never
-#print axioms BB.accept_radius_iff
-#print axioms BB.accept_diameter_iff
-#print axioms BB.ofName_name
-#print axioms BB.name_injective
-#print axioms BB.getMergeFn_spec
-#print axioms BB.getMergeFn_none_iff
-#print axioms BB.getMergeFn_name
